@@ -19,6 +19,8 @@ EXTENDS Extend, TLC
 
 CONSTANTS T, MaxDist, Rad2, Lvs, Bias, Seeded, TSet, MaxCalls, Worlds, Problems, Region,
           ValidateRoots, RestoreRng,
+          NearFirst,        \* TRUE: the nearest node is the FIRST minimum (the code's tie-break) - used to
+                            \* search for implementation-level counterexamples; FALSE: any nearest node
           RewireStrict      \* TRUE: rewire only when strictly cheaper (pinned code); FALSE = the
                             \* "<=" mutant, kept to show C15 is not vacuous
 
@@ -131,6 +133,7 @@ Iterate(kind, q, near) ==
   /\ kind \in Kinds
   /\ q \in (IF kind = "g" THEN probs[pd].goal ELSE Region)
   /\ near \in ArgMin(T, tree, q)
+  /\ (NearFirst => near = FirstMin(T, tree, q))
   /\ LET from == tree[near].s
          qnew == Steer(T, from, q, MaxDist)
          cm   == CheckMotion(T, valid, from, qnew, Lvs)
